@@ -551,6 +551,14 @@ where
         self.close();
 
         // Shutdown the thread pool with timeout
+        #[cfg(rs_store_verif)]
+        crate::verif::pt(
+            "stop.pool",
+            crate::verif::store_id(&self.metrics),
+            0,
+            None,
+            0,
+        );
         // lock pool
         let pool_took = self.pool.lock().unwrap().take();
         #[cfg(rs_store_verif)]
@@ -795,6 +803,8 @@ where
     Action: Send + Sync + Clone + 'static,
 {
     fn on_notify(&self, state: &State, action: &Action) {
+        #[cfg(rs_store_verif)]
+        crate::verif::pt("chfwd.begin", 0, self.vid, None, 0);
         match self.tx.lock() {
             Ok(tx) => {
                 tx.as_ref().map(|tx| {
